@@ -26,7 +26,7 @@ m = {
  "setup_cmd": "bin/setup.sh",
  "hooks": {
   "guard": "verif",
-  "enable": "go build -tags verif (harness module replaces github.com/blugelabs/ice/v2 => /repo); scheduling points/shims are generated from the current tree at check time by harness/cmd/vinstr and delivered with -overlay, never committed",
+  "enable": "go build -tags verif (harness module replaces github.com/blugelabs/ice/v2 => /repo); scheduling points/shims are generated from the current tree at check time by vinstr/ (typed AST instrumenter) and delivered with -overlay, never committed",
   "baseline_off_cmd": "cd /repo && GOFLAGS=-mod=mod GOPROXY=off GOSUMDB=off GOTOOLCHAIN=local go test -json -vet=off -count=1 -timeout 25m ./...",
   "source_commits": hook_commits,
   "add_only": True,
@@ -35,7 +35,7 @@ m = {
   {"name": E1, "path": "harness/explore, harness/gen", "serves_properties": [i for i in ids if i in claimed and claimed[i]['engine'].startswith('E1')], "kind_free_text": "exhaustive enumeration of finite input scopes on the real code, compared with a reference model, sharded over 16 worker processes"},
   {"name": E2, "path": "harness/explore, harness/props", "serves_properties": [i for i in ids if i in claimed and claimed[i]['engine'].startswith('E2')], "kind_free_text": "explicit-state BFS over the real object's private state (verif hooks dump it) / path enumeration of operation sequences"},
   {"name": E3, "path": "harness/props", "serves_properties": [i for i in ids if i in claimed and claimed[i]['engine'].startswith('E3')], "kind_free_text": "one environment deviation per run at every possible index (writer byte offset, storage read, channel close point)"},
-  {"name": E4, "path": "harness/verifrt_src, harness/cmd/vinstr", "serves_properties": [i for i in ids if i in claimed and claimed[i]['engine'].startswith('E4')], "kind_free_text": "cooperative scheduler + preemption-bounded DFS + happens-before monitor over automatically instrumented ice sources"},
+  {"name": E4, "path": "harness/verifrt_src, vinstr/ (typed AST instrumenter)", "serves_properties": [i for i in ids if i in claimed and claimed[i]['engine'].startswith('E4')], "kind_free_text": "cooperative scheduler + preemption-bounded DFS + happens-before monitor over automatically instrumented ice sources"},
  ],
  "checks": [],
  "notes": "All checks rebuild from /repo's current working tree (bin/check.sh). See DESIGN.md.",
